@@ -467,9 +467,13 @@ fn run(run: &mut Run) {
         run.enumerate("polygons-4x4-len5", 16u64.pow(5), &small_poly_case(4, 5));
     }
     run.explore("polygons-random", run.tier.pick(100_000, 1_000_000), 200, &big_poly_case);
+    // the same, each case in a thread of its own (per-thread state of the code starts from scratch)
+    run.explore_fresh("polygons-random", run.tier.pick(3_000, 40_000), 200, &big_poly_case);
     run.explore("polygons-many-vertices", run.tier.pick(1_500, 20_000), 700, &many_vertex_case);
     run.explore("polygons-large-coordinates", run.tier.pick(60_000, 600_000), 60, &large_poly_case);
     run.explore("paths", run.tier.pick(100_000, 800_000), 60, &path_case);
+    // the same, each case in a thread of its own (per-thread state of the code starts from scratch)
+    run.explore_fresh("paths", run.tier.pick(3_000, 40_000), 60, &path_case);
 }
 fn case(sub: &str) -> Option<Box<CaseFn<'static>>> {
     match sub {
